@@ -52,6 +52,12 @@ def generic_rules(ctx, pid):
         if m is None:
             continue
         ctx.guarded(pid + '-G1', rel + '@tolerances', abstol.check, ctx, pid + '-G1', m)
+    from . import aliasrows
+    ctx.rule(pid + '-G4', 'entries created by list repetition ([E] * n: n references to one object) are not written through the list')
+    for rel in files:
+        m = by_rel.get(rel)
+        if m is not None:
+            ctx.guarded(pid + '-G4', rel + '@repeated-rows', aliasrows.check, ctx, pid + '-G4', m)
     from . import rangelist, hiddenstate
     ctx.rule(pid + '-G3', 'no function of the anchored modules keeps results in module-level containers, function attributes or mutable defaults (a second call must not see the first)')
     for rel in files:
